@@ -47,6 +47,8 @@ def _marker_free(s):
 
 def gen_set(rng, tag, scc=False):
     n = rng.randrange(1, 5)
+    if rng.random() < 0.1:
+        n = rng.randrange(20, 60)           # a long document
     caps = []
     t = rng.choice([0, 40000, 1000000, 10 * 10 ** 6])
     if scc:
@@ -105,6 +107,11 @@ def cases(ctx):
         n = rng.randrange(4, 12)
         toks = [rng.choice(TOKENS + ['1', '\n', '\n', '7', 'x', '00:00:01,000 --> 00:00:02,000']) for _i in range(n)]
         yield {'kind': 'string', 's': ''.join(toks)}
+    for n in (2040, 2047, 2048, 2049, 4096, 10000, 70000):
+        for marker, pad in (('</tt>', 'x'), ('WEBVTT', ' '), ('<sami', '\n'), ('</TT>', 'y ')):
+            if ctx.mine(idx):
+                yield {'kind': 'string', 's': (pad * n)[:n] + marker}
+            idx += 1
     for name, doc in sorted(DOCS.items()):
         if ctx.mine(idx):
             yield {'kind': 'prefixes', 'doc': doc, 'of': name}
